@@ -29,6 +29,7 @@ func runC16(c *Ctx) {
 	checkEarlyStopIsError(c)
 	checkListingStableAndEventIds(c)
 	checkNoteKindSystemFirst(c)
+	checkGithubStickyErrorAndTitle(c)
 }
 
 // R16.1
@@ -1290,4 +1291,129 @@ func checkNoteKindSystemFirst(c *Ctx) {
 	}
 	c.Check(bad == "" && n >= 5, "R16.13", "NoteEvent.Kind:patterns-only-on-system-notes", w.FnPos(fn), fmt.Sprintf("%d non-comment kinds, all behind System == true", n),
 		bad+": a user comment that reads 'closed' closes the bug, one starting with 'mentioned in commit' is dropped, one starting with 'changed title from' renames the bug or panics")
+}
+
+// R16.14 / R16.15: two structural facts of the GitHub importer (the rest of that importer is not decided).
+func checkGithubStickyErrorAndTitle(c *Ctx) {
+	w := c.W
+	c.Doc("R16.14", "bridge/github importMediator.err is sticky: every store into it stores a value known to be non-nil at that point (it is never reset by a later successful query), so a failed paging query ends the round with an error whatever happens afterwards")
+	c.Doc("R16.15", "bridge/github: the placeholder title is chosen exactly where text.Empty answers true for the cleaned title (bug.Create refuses every title text.Empty calls empty — a weaker test lets an invisible title stop the whole import)")
+	n := 0
+	for _, f := range w.ModFns {
+		if fnPkgPath(f) != modPath+"/bridge/github" || isInstance(f) || w.isTestHelper(f) {
+			continue
+		}
+		for _, b := range f.Blocks {
+			for _, ins := range b.Instrs {
+				st, ok := ins.(*ssa.Store)
+				if !ok {
+					continue
+				}
+				fa, ok := st.Addr.(*ssa.FieldAddr)
+				if !ok {
+					continue
+				}
+				if fieldName(fa) == "err" && strings.HasSuffix(typeShortName(fa.X.Type()), "importMediator") {
+					if _, fresh := fa.X.(*ssa.Alloc); fresh {
+						continue // initialisation of a new mediator
+					}
+					n++
+					c.Sites++
+					c.seeFn(funcName(f))
+					nonNil := false
+					if _, isK := st.Val.(*ssa.Const); isK && !isNilConst(st.Val) {
+						nonNil = true
+					}
+					if cv, isCall := st.Val.(*ssa.Call); isCall {
+						if nm, _ := callName(cv.Common()); strings.HasSuffix(nm, "errors.New") || strings.HasSuffix(nm, "fmt.Errorf") || strings.HasSuffix(nm, "errors.Wrap") || strings.HasSuffix(nm, "errors.Errorf") {
+							nonNil = true
+						}
+					}
+					var nn []Branch
+					if st.Val.Referrers() != nil {
+						nn, _ = nilTests(st.Val)
+					}
+					for _, br := range nn {
+						if br.Block().Dominates(b) && len(br.Block().Preds) == 1 {
+							nonNil = true
+						}
+					}
+					c.Check(nonNil, "R16.14", funcName(f)+":mediator-error-sticky", w.InstrPos(st), "stores a non-nil error",
+						"the mediator's error is assigned a value that may be nil: a query that succeeds after a failed one erases the failure, the round ends without error, the cursor is stored and the items of the failed page are never imported")
+				}
+			}
+		}
+		// the placeholder
+		for _, b := range f.Blocks {
+			for _, ins := range b.Instrs {
+				var val ssa.Value
+				switch x := ins.(type) {
+				case *ssa.Store:
+					val = x.Val
+				default:
+					continue
+				}
+				s, isS := constString(val)
+				ph, okPh := pkgConstString(w, "bridge/github", "EmptyTitlePlaceholder")
+				if !isS || !okPh || s != ph {
+					continue
+				}
+				c.Sites++
+				ok := false
+				for _, cc := range controlConds(b, nil) {
+					if cv, isCall := cc.If.Cond.(*ssa.Call); isCall && cc.Edge == 0 {
+						if nm, _ := callName(cv.Common()); nm == "util/text.Empty" {
+							ok = true
+						}
+					}
+				}
+				c.Check(ok, "R16.15", funcName(f)+":placeholder-iff-text-empty", w.InstrPos(ins), "under text.Empty(title)", "the placeholder title is not chosen under text.Empty: a title of invisible characters passes the weaker test, bug creation refuses it and the import stops at that issue on every round")
+			}
+		}
+	}
+	// phi form: title = phi(placeholder, cleaned) — look at the phi edges too
+	for _, f := range w.ModFns {
+		if fnPkgPath(f) != modPath+"/bridge/github" || isInstance(f) {
+			continue
+		}
+		ph, okPh := pkgConstString(w, "bridge/github", "EmptyTitlePlaceholder")
+		if !okPh {
+			break
+		}
+		for _, b := range f.Blocks {
+			for _, ins := range b.Instrs {
+				phi, isPhi := ins.(*ssa.Phi)
+				if !isPhi {
+					continue
+				}
+				for i, e := range phi.Edges {
+					if s, isS := constString(e); isS && s == ph {
+						c.Sites++
+						pb := b.Preds[i]
+						ok := false
+						conds := controlConds(pb, nil)
+						// the edge itself may be the true edge of the test
+						if len(pb.Instrs) > 0 {
+							if iff, isIf := pb.Instrs[len(pb.Instrs)-1].(*ssa.If); isIf && pb.Succs[0] == b {
+								conds = append(conds, controlCond{If: iff, Edge: 0})
+							}
+						}
+						for _, cc := range conds {
+							if cv, isCall := cc.If.Cond.(*ssa.Call); isCall && cc.Edge == 0 {
+								if nm, _ := callName(cv.Common()); nm == "util/text.Empty" {
+									ok = true
+								}
+							}
+						}
+						posP := w.FnPos(f)
+						if fi := firstPosInstr(pb); fi != nil {
+							posP = w.InstrPos(fi)
+						}
+						c.Check(ok, "R16.15", funcName(f)+":placeholder-iff-text-empty", posP, "under text.Empty(title)", "the placeholder title is not chosen under text.Empty: a title of invisible characters passes the weaker test, bug creation refuses it and the import stops at that issue on every round")
+					}
+				}
+			}
+		}
+	}
+	c.Check(n >= 4, "R16.14", "expected:mediator-error-stores", "bridge/github", fmt.Sprintf("%d stores into importMediator.err", n), fmt.Sprintf("only %d stores into importMediator.err found (reference 4+)", n))
 }
